@@ -20,7 +20,8 @@ BUILDS = [
     ('always', ['-DMIR_MAX_INSNS_FOR_INLINE=100000', '-DMIR_MAX_INSNS_FOR_CALL_INLINE=100000',
                 '-DMIR_MAX_FUNC_INLINE_GROWTH=400', '-DMIR_MAX_CALLER_SIZE_FOR_ANY_GROWTH_INLINE=4000']),
 ]
-GEN_OPTS = dict(w_call=16, p_blk=0.4, p_forward=0.5, nfuncs=None)
+GEN_OPTS = dict(w_call=16, p_blk=0.4, p_forward=0.7, nfuncs=None, p_inline=0.7, p_top_alloca=0.85, p_midret=0.25, p_alloca_after_call=0.6, p_small=0.7,
+                p_narrow_res=0.5)
 
 
 def regen():
@@ -35,7 +36,7 @@ def c04_programs(chk, n):
     for i in range(n):
         sub = random.Random(rng.getrandbits(64))
         o = dict(GEN_OPTS)
-        o['nfuncs'] = sub.choice([2, 3, 3, 4, 5])
+        o['nfuncs'] = sub.choice([2, 3, 4, 4, 5])
         progs.append(G.gen_program(sub, o))
     return progs
 
@@ -50,7 +51,7 @@ def run(chk):
         'tools/tr_c04_shortcuts.py (regex over the shortcut condition of simplify_func in mir.c)',
         'NOT proved: process_inlines as a whole (register renaming, label duplication, cold code), jump threading, '
         'label renumbering: differential run only (inline_simulation not attempted)']
-    n = 150 if quick else 3000
+    n = 300 if quick else 1000
     progs = c04_programs(chk, n)
     total_div = 0
     nwd = 0
